@@ -296,6 +296,33 @@ def run(ctx):
     ctx.oblig(e == "pc", {"Breakpoints::get argument": e}, "the pc parameter")
     if e != "pc":
         ctx.violation("get-arg", sp_file_line(cf.term(gets[0]).get("sp")), "the breakpoint lookup uses `%s` instead of the PC" % e)
+    # the "just paused here" marker: every pass through the interrupt check either stops (WaitForAction) or rewrites the marker;
+    # the only Some(_) ever stored is the PC under test. A stale marker makes the next arrival at that breakpoint run through.
+    from ..effects import Effects as _Eff
+    ws = _Eff(prog).site_writes(cf, 1)
+    marker_fields = sorted({w[2][0] for w in ws if w[2] and w[2][0] != "status"})
+    ctx.need(len(marker_fields) == 1, "exactly one Debugger field besides `status` written by the interrupt check (the just-paused marker): %s" % marker_fields)
+    mk = marker_fields[0]
+    mk_blocks = {w[0] for w in ws if w[1] == "assign" and w[2] == (mk,)}
+    wb_cf = wait_blocks(cf)
+    rets = [b for b in cf.live_blocks() if cf.term(b)["k"] == "return"]
+    ctx.instance(1)
+    stale = cf.reachable(0, avoid=mk_blocks | wb_cf) & set(rets)
+    ok = not stale
+    ctx.oblig(ok, {"marker": mk, "rewritten or stopped on every path": True}, "must-pass-through over the interrupt check")
+    if not ok:
+        p = cf.path(0, stale, avoid=mk_blocks | wb_cf)
+        ctx.violation("stale-marker", cf.file_line(),
+                      "the interrupt check can return without stopping and without rewriting `%s`%s: the marker of a breakpoint left long ago "
+                      "survives, and the next arrival at that breakpoint is not stopped" % (mk, " (lines %s)" % cf.path_lines(p) if p else ""))
+    for b in sorted(mk_blocks):
+        for s_ in cf.stmts(b):
+            if s_["k"] == "assign" and [e.get("n") for e in s_["p"].get("pr", []) if isinstance(e, dict) and "f" in e][-1:] == [mk]:
+                e = cf.rvalue_expr(s_["r"], 4, stop={"named"})
+                ok = e[0] == "agg" and (e[1][-1] == "None" or (e[1][-1] == "Some" and expr_str(e[2][0]) == "pc"))
+                ctx.oblig(ok, {"marker <-": expr_str(e)}, "None or Some(pc under test)")
+                if not ok:
+                    ctx.violation("marker-value", sp_file_line(s_.get("sp")), "the just-paused marker is set to `%s` (expected None or Some(pc))" % expr_str(e))
     # run loop: while attached, next_action is on every path from the loop head to execute
     ex = [b for b, t, c in rl.calls() if c == EXEC]
     pzb = [b for b, t, c in rl.calls() if c == pz.name]
